@@ -556,6 +556,18 @@ enum Mem {
     BitOp(i64, Vec<u32>, Vec<u32>),
 }
 
+/// fetching (and dropping) an item of this member changes nothing and emits nothing
+fn fetch_is_pure(m: &Mem) -> bool {
+    match m {
+        Mem::Read(_) | Mem::Ents | Mem::Bits(_) | Mem::Anti(_) | Mem::BitOp(..) => true,
+        // (the erased member reads, and for the mutable view writes, while it builds the item)
+        Mem::Restr { mode, .. } => *mode != 1,
+        Mem::Cs { mode, .. } => *mode == 0,
+        Mem::Maybe(inner) => fetch_is_pure(inner),
+        Mem::Write { .. } | Mem::Drain(_) => false,
+    }
+}
+
 #[derive(Clone, Copy, PartialEq, Eq, Debug)]
 enum Flavour {
     /// `.join()`
@@ -1268,17 +1280,27 @@ fn run_par(ms: Vec<DynPar<'_>>, arg: usize) -> Out {
     enc_rows(rows)
 }
 
-fn run_get(ms: Vec<DynLendR<'_>>, e: Entity, ents: &Entities<'_>, all_optional: bool) -> Out {
+fn run_get(ms: Vec<DynLendR<'_>>, e: Entity, ents: &Entities<'_>, all_optional: bool, decoys: &[Index]) -> Out {
     let r: Option<Vec<Item>> = if all_optional {
         let ms: Vec<UncLend<'_>> = ms.into_iter().map(UncLend).collect();
         with_tuple!(ms, t => {
             let mut it = t.lend_join();
+            // the same iterator is asked for other (mostly higher) indices first: what it answers afterwards must
+            // not depend on what it was asked before
+            for &d in decoys {
+                let _ = it.get_unchecked(d);
+            }
             let r = it.get(e, ents).map(|x| x.into_items());
             r
         })
     } else {
         with_tuple!(ms, t => {
             let mut it = t.lend_join();
+            // the same iterator is asked for other (mostly higher) indices first: what it answers afterwards must
+            // not depend on what it was asked before
+            for &d in decoys {
+                let _ = it.get_unchecked(d);
+            }
             let r = it.get(e, ents).map(|x| x.into_items());
             r
         })
@@ -1286,17 +1308,23 @@ fn run_get(ms: Vec<DynLendR<'_>>, e: Entity, ents: &Entities<'_>, all_optional: 
     enc_lookup(r)
 }
 
-fn run_get_unchecked(ms: Vec<DynLendR<'_>>, idx: Index, all_optional: bool) -> Out {
+fn run_get_unchecked(ms: Vec<DynLendR<'_>>, idx: Index, all_optional: bool, decoys: &[Index]) -> Out {
     let r: Option<Vec<Item>> = if all_optional {
         let ms: Vec<UncLend<'_>> = ms.into_iter().map(UncLend).collect();
         with_tuple!(ms, t => {
             let mut it = t.lend_join();
+            for &d in decoys {
+                let _ = it.get_unchecked(d);
+            }
             let r = it.get_unchecked(idx).map(|x| x.into_items());
             r
         })
     } else {
         with_tuple!(ms, t => {
             let mut it = t.lend_join();
+            for &d in decoys {
+                let _ = it.get_unchecked(d);
+            }
             let r = it.get_unchecked(idx).map(|x| x.into_items());
             r
         })
@@ -1420,10 +1448,24 @@ pub fn op_join(world: &mut World, xs: &mut St, p: &[i64]) -> Out {
         }
         Flavour::LR => {
             let all_optional = mems.iter().all(|m| matches!(m, Mem::Maybe(_)));
+            // decoy lookups on the same iterator before the real one (only when fetching an item is free of effects):
+            // the highest indices known, and two beyond the target
+            let target = lookup_entity.map(|e| e.id()).unwrap_or(arg as Index);
+            let decoys: Vec<Index> = if mems.iter().all(fetch_is_pure) && (target as u64 + arg as u64) % 3 != 0 {
+                let mut ids: Vec<Index> = xs.hs.iter().map(|e| e.id()).filter(|&i| i > target).collect();
+                ids.sort();
+                ids.dedup();
+                let mut d: Vec<Index> = ids.iter().rev().take(2).cloned().collect();
+                d.push(target.saturating_add(1));
+                d.push(target.saturating_add(4097).min((1 << 24) - 1));
+                d
+            } else {
+                Vec::new()
+            };
             let ms: Vec<DynLendR<'_>> = mems.iter().map(|m| build_lr(m, &mut cx)).collect();
             match lookup_entity {
-                Some(e) => run_get(ms, e, &ents, all_optional),
-                None => run_get_unchecked(ms, arg as Index, all_optional),
+                Some(e) => run_get(ms, e, &ents, all_optional, &decoys),
+                None => run_get_unchecked(ms, arg as Index, all_optional, &decoys),
             }
         }
     }
